@@ -187,6 +187,10 @@ pub trait Spec: Sized {
 	fn spec_heap(&self) -> usize {
 		0
 	}
+	/// does the value own any heap allocation at all (a non-empty list owns its nodes even when the elements are zero-sized)
+	fn spec_holds_heap(&self) -> bool {
+		self.spec_heap() > 0
+	}
 }
 
 pub fn put_compact<const N: usize>(v: u128, o: &mut Buf<N>) {
@@ -661,6 +665,9 @@ impl<T: Elem> Spec for LinkedList<T> {
 			h += x.spec_heap();
 		}
 		h
+	}
+	fn spec_holds_heap(&self) -> bool {
+		!self.is_empty()
 	}
 }
 macro_rules! spec_holder {
